@@ -174,6 +174,7 @@ MUTANTS = [
                     self.eat_literal_suffix();
                 }''', '''                let suffix_start = self.pos_within_token();
                 self.eat_literal_suffix();'''),
+    M('parser:lhs:two-operators-one-node', 'parser', ['C05'], 'lhs', '            m = p.start();\n            p.bump_any();\n', '            m = p.start();\n            p.bump_any();\n            if p.at(T![-]) { p.bump_any(); }\n'),
     # ---- LEX extents
     M('lex:line_comment:stops-at-space', 'lex', ['C15', 'C14'], "Cursor<'_>::line_comment", "{ c != '\\n' });", "{ c != '\\n' && c != ' ' });"),
     M('lex:eat_identifier:start-test-inverted', 'lex', ['C15'], "Cursor<'_>::eat_identifier", 'if !is_id_start(self.first()) {', 'if is_id_start(self.first()) {'),
